@@ -474,6 +474,7 @@ func (g *Gen) phi(in *ssa.Phi, st *State) {
 func (g *Gen) indexAddr(in *ssa.IndexAddr, st *State, reach string) {
 	x := g.val(in.X, st)
 	i := g.val(in.Index, st)
+	g.seeIndex(i.S)
 	switch u := in.X.Type().Underlying().(type) {
 	case *types.Slice:
 		g.safeObl("safe-idx", fmt.Sprintf("(and (<= 0 %s) (< %s (s-len %s)))", i.S, i.S, x.S), reach, in.Pos(), "slice index in range")
@@ -498,6 +499,7 @@ func (g *Gen) lookup(in *ssa.Lookup, st *State, reach string) {
 	switch u := in.X.Type().Underlying().(type) {
 	case *types.Basic: // string
 		g.uses["str"] = true
+		g.seeIndex(k.S)
 		g.safeObl("safe-idx", fmt.Sprintf("(and (<= 0 %s) (< %s (str.len %s)))", k.S, k.S, x.S), reach, in.Pos(), "string index in range")
 		g.define(in, "(str.to_code (str.at "+x.S+" "+k.S+"))")
 	case *types.Map:
@@ -712,13 +714,13 @@ func (g *Gen) convertSVg(x *SV, from, to types.Type, pos token.Pos, reach string
 			return g.convertSV(&SV{S: x.S, T: from}, to)
 		}
 		if g.fmode == "real" {
-			inr = fmt.Sprintf("(and (> %s %s.0) (< %s %s.0))", x.S, smtRealInt(new(big.Int).Sub(lo, big.NewInt(1))), x.S, smtRealInt(new(big.Int).Add(hi, big.NewInt(1))))
+			inr = fmt.Sprintf("(and (> %s %s) (< %s %s))", x.S, smtRealInt(new(big.Int).Sub(lo, big.NewInt(1))), x.S, smtRealInt(new(big.Int).Add(hi, big.NewInt(1))))
 		} else {
 			srt := "11 53"
 			if intBits32(from) {
 				srt = "8 24"
 			}
-			inr = fmt.Sprintf("(and (not (fp.isNaN %[1]s)) (fp.gt %[1]s ((_ to_fp %[4]s) RNE %[2]s.0)) (fp.lt %[1]s ((_ to_fp %[4]s) RNE %[3]s.0)))", x.S,
+			inr = fmt.Sprintf("(and (not (fp.isNaN %[1]s)) (fp.gt %[1]s ((_ to_fp %[4]s) RNE %[2]s)) (fp.lt %[1]s ((_ to_fp %[4]s) RNE %[3]s)))", x.S,
 				smtRealInt(new(big.Int).Sub(lo, big.NewInt(1))), smtRealInt(new(big.Int).Add(hi, big.NewInt(1))), srt)
 		}
 		g.safeObl("safe-conv", inr, reach, pos, "float to integer conversion operand in range (implementation-defined otherwise)")
@@ -741,9 +743,9 @@ func (g *Gen) convertSVg(x *SV, from, to types.Type, pos token.Pos, reach string
 
 func smtRealInt(v *big.Int) string {
 	if v.Sign() < 0 {
-		return "(- " + new(big.Int).Neg(v).String()
+		return "(- " + new(big.Int).Neg(v).String() + ".0)"
 	}
-	return v.String()
+	return v.String() + ".0"
 }
 
 func (g *Gen) box(term string, t types.Type) string {
@@ -838,6 +840,7 @@ func (g *Gen) ret(in *ssa.Return, st *State, reach string) {
 		po := g.addObl("post", lab, implies(reach, s), in.Pos(), "postcondition at return (line "+fmt.Sprint(line)+"): "+cl.Src, cl)
 		po.Results = results
 		po.St = st.clone()
+		g.lightGoal(po, cl.E, env, reach)
 	}
 	// frame: heaps not listed in modifies are unchanged on pre-existing objects
 	if !g.con.ModAll && !g.pa {
